@@ -56,6 +56,28 @@ CLAIMED.update({
     ),
 })
 
+CLAIMED.update({
+    'C16': (
+        'proxy symbolic execution (bvx: z3 integers and bit-vectors) of the real arithmetic/boolean instruction classes',
+        'Bounded symbolic model checking of every operand-type combination of ADD SUB SUB_MUTEZ MUL EDIV ABS NEG ISNAT INT NAT '
+        'BYTES LSL LSR AND OR XOR NOT EQ..GE: the real execute() methods run on z3 terms; results, failure conditions and result '
+        'types are compared with mathematical definitions (EDIV by its defining equation, BYTES by value+minimality+round trip). '
+        'Unbounded integers for the arithmetic group; bit-vectors with checked width for the bit-level group.',
+        'Engine models of Python builtins (floor divmod, bit_length, to_bytes/from_bytes) are validated against CPython on every run; '
+        'formatting stubbed; BLS operand types excluded.',
+        'DESIGN.md C16',
+    ),
+    'C03': (
+        'proxy symbolic execution (bvx/z3) of COMPARE and the __lt__/__eq__ methods, set/map constraint checks; solver-chosen representatives for base58-rendered types',
+        'Bounded symbolic model checking: two symbolic values of each comparable type shape go through the real COMPARE; the result must '
+        'agree with a reference order computed on the same symbolic values; set/map literals of 2..4 symbolic elements must be accepted '
+        'exactly when strictly increasing; for address/key/key_hash/chain_id/signature the solver picks triples from real representatives '
+        'of every kind and the kind order plus the total-order axioms are checked.',
+        'set() inside check_constraints modelled as duplicate elimination by __eq__; payload-level order of base58 text is bridged by the C09 lemma.',
+        'DESIGN.md C03',
+    ),
+})
+
 NOT_APPLICABLE = {
     'C18': 'Parser is a PLY regex lexer + LALR tables + json; every input is concrete before the code under test runs, '
            'so a solver has nothing to decide (CrossHair regex model also unsound here). See DESIGN.md section 6.',
